@@ -349,8 +349,12 @@ struct SpyAllocator : ArduinoJson::Allocator {
   size_t calls = 0;         // allocate + reallocate calls (the ones that may fail)
   std::vector<bool> fail;   // fail[k] => k-th (0-based) failable call returns null
   long fail_from = -1;      // >= 0: every failable call with index >= fail_from fails
-  bool misuse = false;      // deallocate/reallocate of a block that is not live
+  bool misuse = false;      // deallocate/reallocate of a block that is not live IN THIS allocator
+  // several allocators (one per document) may share one failure schedule and call counter: `master` holds them, each
+  // allocator keeps its own ledger of live blocks, so a block released through another document's allocator is misuse
+  SpyAllocator* master = nullptr;
   bool shouldFail(bool growing) {
+    if (master) return master->shouldFail(growing);
     size_t k = calls++;
     if (!growing) return false;   // a shrinking reallocate never fails
     if (fail_from >= 0 && (long)k >= fail_from) return true;
@@ -359,6 +363,7 @@ struct SpyAllocator : ArduinoJson::Allocator {
   void* allocate(size_t n) override {
     bool f = shouldFail(true);
     requested += n;
+    if (master) master->log.push_back({'a', n, 0, !f});
     if (f) { log.push_back({'a', n, 0, false}); return nullptr; }
     void* p = malloc(n ? n : 1);
     live[p] = n; live_bytes += n; if (live_bytes > peak) peak = live_bytes;
@@ -366,6 +371,7 @@ struct SpyAllocator : ArduinoJson::Allocator {
     return p;
   }
   void deallocate(void* p) override {
+    if (master) master->log.push_back({'d', 0, 0, true});
     if (!p) { log.push_back({'d', 0, 0, true}); return; }
     auto it = live.find(p);
     if (it == live.end()) { misuse = true; log.push_back({'d', 0, 0, false}); return; }
@@ -382,6 +388,7 @@ struct SpyAllocator : ArduinoJson::Allocator {
       old = it->second;
     }
     bool f = shouldFail(n > old);
+    if (master) master->log.push_back({'r', old, n, !f});
     if (n > old) requested += n - old;
     if (f) { log.push_back({'r', old, n, false}); return nullptr; }
     // always move the block so that stale pointers are caught by ASan
